@@ -93,6 +93,27 @@ func containsStr(s, sub string) bool {
 	return false
 }
 
+// setAuth puts the case on one point of the auth writer axis.
+func setAuth(c *Case, mode string) {
+	switch mode {
+	case "none":
+		c.Auth, c.AuthMode = false, ""
+	case "body1":
+		c.Auth, c.AuthMode = true, ""
+	default:
+		c.Auth, c.AuthMode = true, mode
+	}
+}
+
+func inList(l []string, v string) bool {
+	for _, x := range l {
+		if x == v {
+			return true
+		}
+	}
+	return false
+}
+
 func okResp() Resp {
 	return Resp{Status: 200, Kind: "json", Body: []F{{K: "ok", T: "b", V: "true"}}, H: []H{{K: "X-Resp", V: []BS{"r1"}}}}
 }
@@ -176,7 +197,14 @@ func families(full bool) []group {
 	bases := pick([]string{"/api", "/"}, []string{"/api", "/", "/api/v1", "/api/", ""})
 	methods := pick([]string{"GET", "POST"}, []string{"GET", "POST", "PUT", "DELETE", "PATCH", "HEAD", "OPTIONS"})
 	bodyMethods := pick([]string{"POST", "DELETE"}, []string{"POST", "PUT", "PATCH", "DELETE"})
-	auths := []bool{false, true}
+	// the auth writer axis: none, header only, GetBody once / twice / three times, Compose of two body readers.
+	// Families whose body is streamed (multipart forms, files, reader payloads) take the whole axis in both
+	// tiers; families whose body is produced into the request buffer take {none, once, twice} in quick.
+	authsStreamed := []string{"none", "header", "body1", "body2", "body3", "compose"}
+	authsBuffered := authsStreamed
+	if !full {
+		authsBuffered = []string{"none", "body1", "body2"}
+	}
 
 	// 1. one path placeholder: templates x base paths x methods x every value
 	for _, tmpl := range pick([]string{"/items/{id}", "/{id}", "/items/{id}/sub"}, []string{"/items/{id}", "/{id}", "/items/{id}/sub", "/items/{id}.json", "/a/b/c/{id}"}) {
@@ -250,9 +278,10 @@ func families(full bool) []group {
 	}
 	// 7. urlencoded form fields
 	for _, m := range bodyMethods {
-		for _, auth := range auths {
+		for _, auth := range authsBuffered {
 			c := base
-			c.Method, c.Consumes, c.Auth = m, "urlencoded", auth
+			c.Method, c.Consumes = m, "urlencoded"
+			setAuth(&c, auth)
 			c.Params = []P{{Name: "f", In: "form", Type: "string"}}
 			add(sweep("form-urlencoded", c, 0, vals))
 		}
@@ -271,9 +300,10 @@ func families(full bool) []group {
 	}
 	// 8. multipart form fields
 	for _, m := range bodyMethods {
-		for _, auth := range auths {
+		for _, auth := range authsStreamed {
 			c := base
-			c.Method, c.Consumes, c.Auth = m, "multipart", auth
+			c.Method, c.Consumes = m, "multipart"
+			setAuth(&c, auth)
 			c.Params = []P{{Name: "f", In: "form", Type: "string"}}
 			add(sweep("form-multipart", c, 0, vals))
 		}
@@ -298,10 +328,11 @@ func families(full bool) []group {
 		fnames = fnames[:12]
 	}
 	for _, withField := range []bool{false, true} {
-		for _, auth := range auths {
+		for _, auth := range authsStreamed {
 			for _, pat := range []int{0, 1} {
 				c := base
-				c.Method, c.Consumes, c.Auth = "POST", "multipart", auth
+				c.Method, c.Consumes = "POST", "multipart"
+				setAuth(&c, auth)
 				c.Params = []P{{Name: "up", In: "file", Type: "file", Fpat: pat}}
 				if withField {
 					c.Params = append(c.Params, P{Name: "note", In: "form", Type: "string", V: []BS{"a b&c\r\n"}})
@@ -339,9 +370,10 @@ func families(full bool) []group {
 	}
 	if full { // long files (still below the 32 MiB at which net/http spills a form to disk)
 		sizes := []int{1 << 20, 5<<20 + 1}
-		for _, auth := range auths {
+		for _, auth := range authsStreamed {
 			c := base
-			c.Method, c.Consumes, c.Auth = "POST", "multipart", auth
+			c.Method, c.Consumes = "POST", "multipart"
+			setAuth(&c, auth)
 			c.Params = []P{{Name: "up", In: "file", Type: "file", Fname: "big.bin", Fpat: 0}}
 			add(group{"file", len(sizes), func(i int) Case {
 				d := with(c)
@@ -352,9 +384,10 @@ func families(full bool) []group {
 	}
 	// 10. JSON bodies
 	for _, m := range bodyMethods {
-		for _, auth := range auths {
+		for _, auth := range authsBuffered {
 			c := base
-			c.Method, c.Auth = m, auth
+			c.Method = m
+			setAuth(&c, auth)
 			c.Params = []P{{Name: "body", In: "body", Type: "object"}}
 			add(group{"body-json", len(vals), func(i int) Case {
 				d := with(c)
@@ -403,9 +436,10 @@ func families(full bool) []group {
 	}
 	// 11. bodies whose schema is a string: text/plain, application/octet-stream, JSON string
 	for _, bt := range [][2]string{{"text", "text"}, {"bytes", "bytes"}, {"jstring", "json"}} {
-		for _, auth := range auths {
+		for _, auth := range authsStreamed {
 			c := base
-			c.Method, c.Consumes, c.Auth = "POST", bt[1], auth
+			c.Method, c.Consumes = "POST", bt[1]
+			setAuth(&c, auth)
 			c.Params = []P{{Name: "body", In: "body", Type: bt[0]}}
 			add(sweep("body-string-schema", c, 0, atoms))
 		}
@@ -548,10 +582,14 @@ func families(full bool) []group {
 	// 14. everything at once: the same value in path, query, header, and a form field or the body
 	cvals := filter(vals, func(s string) bool { return validHeaderValue(s) && s != "" && s != "." && s != ".." })
 	for _, bp := range pick([]string{"/api"}, []string{"/api", "/"}) {
-		for _, auth := range auths {
+		for _, auth := range authsStreamed {
 			for _, kind := range []string{"json", "urlencoded", "multipart"} {
+				if kind != "multipart" && !inList(authsBuffered, auth) {
+					continue
+				}
 				c := base
-				c.Base, c.Method, c.Template, c.Consumes, c.Auth = bp, "POST", "/items/{id}/sub", kind, auth
+				c.Base, c.Method, c.Template, c.Consumes = bp, "POST", "/items/{id}/sub", kind
+				setAuth(&c, auth)
 				c.Params = []P{{Name: "id", In: "path", Type: "string"}, {Name: "q", In: "query", Type: "string"}, {Name: "X-Val", In: "header", Type: "string"}}
 				switch kind {
 				case "json":
@@ -781,7 +819,7 @@ var familyAxes = map[string]string{
 	"query-array":                "collectionFormat {none csv ssv tsv pipes multi} x item lists (empty, every 1-list and 2-list over the atoms, every 3-list over 5 items)",
 	"header-scalar":              "declared names {X-Val, X-Request-Id, Etag, x-val, X-VAL, X-Request-ID, X_Val} x every value that is a valid HTTP field value; plus the atoms that are not (outside the guarantee)",
 	"header-array":               "collectionFormat {none csv pipes} x item lists over the valid atoms",
-	"form-urlencoded":            "methods {POST PUT PATCH DELETE} x auth writer {no, yes} x values; field names {$top, filter[a], 'a b', é, a&b=c} x atoms",
+	"form-urlencoded":            "methods {POST PUT PATCH DELETE} x auth writer axis x values; field names {$top, filter[a], 'a b', é, a&b=c} x atoms",
 	"form-urlencoded-array":      "collectionFormat {none csv ssv tsv pipes multi} x item lists",
 	"form-multipart":             "methods {POST PUT PATCH DELETE} x auth writer x values; field names {$top, filter[a], 'a b', é, a\"b, a\\b, a;b} x atoms",
 	"form-multipart-array":       "collectionFormat {csv pipes multi} x item lists",
@@ -800,7 +838,8 @@ var familyAxes = map[string]string{
 	"long-values":                "lengths {255 256 4096 65536} x 3 repeating units, the same value in path, query, header, body/field and echoed back",
 	"media-type-spelling":        "consumes / produces spelled with a charset parameter (application/json, text/plain)",
 	"template-composite-segment": "base paths {/api, /} x templates {/files/{id}-x, /files/{id}.json/meta, /files/v{id}, /files/v{id}.json} x atoms without the literal characters; templates {/files/{a}-{b}, /files/{a}.{b}/z} x those atoms x those atoms",
-	"sequences-on-one-instance":  "per world (base path /api; thorough also /): one description with 7 operations (POST /things with a string body in json/text/bytes and json/text responses; POST /things/{id}; PUT /things with an object body; POST /forms in urlencoded and multipart; GET /things producing json/text/bytes; POST /upload; GET /things/{id}/sub), an alphabet of 30 round trips over them (different media types, values, statuses, with/without auth writer); EVERY ordered pair of the alphabet (900), thorough: every ordered triple of 14 core steps (2744), and the whole alphabet forward then backward (60 steps) - each sequence on ONE server instance and ONE client.Runtime, every step judged by the identity oracle and compared with the observation of the same step alone on a fresh instance",
+	"sequences-on-one-instance":  "per world (base path /api; thorough also /): one description with 7 operations (POST /things with a string body in json/text/bytes and json/text responses; POST /things/{id}; PUT /things with an object body; POST /forms in urlencoded and multipart; GET /things producing json/text/bytes; POST /upload; GET /things/{id}/sub), an alphabet of 42 round trips over them (different media types, values, statuses, the whole auth writer axis on the streamed bodies); EVERY ordered pair of the alphabet (1764), thorough: every ordered triple of 16 core steps (4096), and the whole alphabet forward then backward (84 steps) - each sequence on ONE server instance and ONE client.Runtime, every step judged by the identity oracle and compared with the observation of the same step alone on a fresh instance",
+	"auth-writer-axis":           "wherever a family says auth writer: {none, header-only writer, GetBody once, twice, three times, client.Compose of two writers that each call GetBody}; families with a streamed body (multipart forms, files, reader payloads, string-schema bodies) take all six in both tiers, families with a buffered body (urlencoded, JSON) take {none, once, twice} in quick and all six in thorough",
 	"sequences-baseline-alone":   "each step of the alphabet alone on a fresh instance of the world's description",
 	"template-shape":             "base paths {/api, /} x templates {/, /items/, /items/{id}/, literals with space, non-ASCII, '+', ':', ';'} x methods {GET POST}; base paths with space, non-ASCII, ';'",
 	"triples-path":               "thorough: every concatenation of three atoms as a path value",
